@@ -91,6 +91,22 @@ fn ref_hash(a: u64, data: &[u8]) -> Vec<u8> {
     }
 }
 
+/// Transform::new probes the program with spawn + kill and never waits for it: reap those zombies
+/// (tens of thousands of sequences per run would otherwise exhaust the pid limit of the machine).
+/// Only called between ops, when no transform execution is in flight.
+fn reap_zombies() {
+    for _ in 0..3 {
+        loop {
+            let mut status = 0;
+            let r = unsafe { libc::waitpid(-1, &mut status, libc::WNOHANG) };
+            if r <= 0 {
+                break;
+            }
+        }
+        std::thread::sleep(std::time::Duration::from_micros(200));
+    }
+}
+
 fn make_transform(i: usize) -> Transform {
     let (cmd, in_place, no_copy) = TTABLE[i];
     let mut t = Transform::new(cmd.to_string(), in_place).expect("Transform::new");
@@ -157,6 +173,18 @@ fn run_seq(scratch: &StdPath, id: &str, ops: &[&str]) -> String {
                     Err(_) => "i-".to_string(),
                 }
             }
+            ["m", p, mt] => {
+                // a directory: stat works, every read fails (EISDIR) — the "failed read" of hash_file
+                let path = s.path(p);
+                match fs::create_dir(&path) {
+                    Ok(()) => {
+                        set_mtime(&path, mt.parse().unwrap());
+                        let md = fs::metadata(&path).unwrap();
+                        format!("i{},{}", s.canon(&md), md.len())
+                    }
+                    Err(_) => "i-".to_string(),
+                }
+            }
             ["w", p, b, mt] => {
                 let path = s.path(p);
                 if let Ok(mut fh) = OpenOptions::new().write(true).truncate(true).open(&path) {
@@ -205,36 +233,55 @@ fn run_seq(scratch: &StdPath, id: &str, ops: &[&str]) -> String {
             }
             ["O", a, tr] => {
                 let cmd = if *tr == "-" { None } else { Some(TTABLE[tr.parse::<usize>().unwrap()].0) };
-                match HashCache::open(&Path::from(&s.cache_dir), cmd, algo(a.parse().unwrap())) {
+                let mut opened = HashCache::open(&Path::from(&s.cache_dir), cmd, algo(a.parse().unwrap()));
+                let mut tries = 0;
+                while opened.is_err() && tries < 50 {
+                    std::thread::sleep(std::time::Duration::from_millis(20));
+                    opened = HashCache::open(&Path::from(&s.cache_dir), cmd, algo(a.parse().unwrap()));
+                    tries += 1;
+                }
+                match opened {
                     Ok(c) => {
                         direct = Some(c);
                         ".".to_string()
                     }
-                    Err(e) => format!("EXN open failed: {e}").replace(' ', "_"),
+                    Err(e) => format!("EXN open failed: {e}").split_whitespace().collect::<Vec<_>>().join("_"),
                 }
             }
             ["C"] => match direct.take() {
                 Some(c) => match c.close() {
                     Ok(()) => ".".to_string(),
-                    Err(e) => format!("EXN close failed: {e}").replace(' ', "_"),
+                    Err(e) => format!("EXN close failed: {e}").split_whitespace().collect::<Vec<_>>().join("_"),
                 },
-                None => "EXN no open cache".replace(' ', "_"),
+                None => "EXN no open cache".split_whitespace().collect::<Vec<_>>().join("_"),
             },
             ["HO", a, tr] => {
                 let a: u64 = a.parse().unwrap();
                 let t = if *tr == "-" { None } else { Some(make_transform(tr.parse().unwrap())) };
-                match FileHasher::new_cached(algo(a), t.clone(), &LOG) {
+                // sled releases its file lock asynchronously after the previous handle is dropped: retry briefly
+                let mut opened = FileHasher::new_cached(algo(a), t.clone(), &LOG);
+                let mut tries = 0;
+                while opened.is_err() && tries < 50 {
+                    std::thread::sleep(std::time::Duration::from_millis(20));
+                    opened = FileHasher::new_cached(algo(a), t.clone(), &LOG);
+                    tries += 1;
+                }
+                if tries > 0 {
+                    eprintln!("cache harness: new_cached needed {tries} retries");
+                }
+                match opened {
                     Ok(h) => {
                         // precondition of the harness: the cache really lives under the scratch dir
                         assert!(s.cache_dir.join("db").exists(), "cache is not under the scratch dir");
                         hasher = Some((h, FileHasher::new(algo(a), t, &LOG), a));
                         ".".to_string()
                     }
-                    Err(e) => format!("EXN new_cached failed: {e}").replace(' ', "_"),
+                    Err(e) => format!("EXN new_cached failed: {e}").split_whitespace().collect::<Vec<_>>().join("_"),
                 }
             }
             ["HC"] => {
                 hasher = None; // Drop closes (flushes) the cache
+                reap_zombies();
                 ".".to_string()
             }
             ["P", p, pos, len, dl, h] => {
@@ -247,7 +294,7 @@ fn run_seq(scratch: &StdPath, id: &str, ops: &[&str]) -> String {
                         let bytes = parse_bytes_field(h);
                         match c.put(&key, &md, FileLen(dl.parse().unwrap()), FileHash::from(bytes.as_slice())) {
                             Ok(()) => format!("ok{meta}"),
-                            Err(e) => format!("EXN put failed: {e}").replace(' ', "_"),
+                            Err(e) => format!("EXN put failed: {e}").split_whitespace().collect::<Vec<_>>().join("_"),
                         }
                     }
                     _ => "nofile".to_string(),
@@ -266,7 +313,7 @@ fn run_seq(scratch: &StdPath, id: &str, ops: &[&str]) -> String {
                                 let hs = h.to_string();
                                 format!("s:{}:{}{}", dl.0, if hs.is_empty() { "-".to_string() } else { hs }, meta)
                             }
-                            Err(e) => format!("EXN get failed: {e}").replace(' ', "_"),
+                            Err(e) => format!("EXN get failed: {e}").split_whitespace().collect::<Vec<_>>().join("_"),
                         }
                     }
                     _ => "nofile".to_string(),
@@ -275,7 +322,10 @@ fn run_seq(scratch: &StdPath, id: &str, ops: &[&str]) -> String {
             [k @ ("H" | "X"), p, pos, len] => {
                 let path = Path::from(s.path(p));
                 let meta = s.meta(p).unwrap_or_default();
-                let (h, plain, _a) = hasher.as_ref().expect("no hasher");
+                let Some((h, plain, _a)) = hasher.as_ref() else {
+                    out.push("EXN_no_hasher".to_string());
+                    continue;
+                };
                 let chunk = FileChunk::new(&path, FilePos(pos.parse().unwrap()), FileLen(len.parse().unwrap()));
                 if *k == "H" {
                     let cached = match h.hash_file(&chunk, |_| {}) {
@@ -299,12 +349,13 @@ fn run_seq(scratch: &StdPath, id: &str, ops: &[&str]) -> String {
                     format!("{cached}~{reference}")
                 }
             }
-            _ => format!("EXN bad token {tok}").replace(' ', "_"),
+            _ => format!("EXN bad token {tok}").split_whitespace().collect::<Vec<_>>().join("_"),
         };
         out.push(r);
     }
     drop(hasher);
     drop(direct);
+    reap_zombies();
     let _ = fs::remove_dir_all(&dir);
     format!("{} | {}", id, out.join(" "))
 }
@@ -350,6 +401,16 @@ fn main() {
             let path = std::env::var("PATH").unwrap_or_default();
             std::env::set_var("PATH", format!("{}:{}", bin.display(), path));
             std::env::set_var("LC_ALL", "C");
+            // Transform::new spawns the transform program with OUR stdout inherited (`sed` prints its usage there):
+            // keep the result channel on a private close-on-exec descriptor and point fd 1 at stderr
+            drop(o);
+            let mut o = unsafe {
+                use std::os::unix::io::FromRawFd;
+                let fd = libc::fcntl(1, libc::F_DUPFD_CLOEXEC, 10);
+                assert!(fd >= 0);
+                libc::dup2(2, 1);
+                fs::File::from_raw_fd(fd)
+            };
             std::panic::set_hook(Box::new(|info| {
                 *PANIC_MSG.lock().unwrap() = info.to_string();
             }));
@@ -364,7 +425,7 @@ fn main() {
                 match r {
                     Ok(s) => writeln!(o, "{s}").unwrap(),
                     Err(_) => {
-                        let msg = PANIC_MSG.lock().unwrap().clone().replace(' ', "_").replace('|', "/");
+                        let msg = PANIC_MSG.lock().unwrap().clone().split_whitespace().collect::<Vec<_>>().join("_").replace('|', "/");
                         writeln!(o, "{id} | EXN_panic:{msg}").unwrap()
                     }
                 }
